@@ -540,6 +540,23 @@ package common
 //@ func (epc *EpochsContext) hydrateSyncCommittee(view) (r, err)
 //@   trusted
 //@   ensures err == nil ==> r != nil && sc_src(r) == view
+// the from-scratch path: LoadSyncCommittees caches the state's two committees; NewEpochsContext does so for every state that has
+// them - handed over directly or held by the repository's wrapper (the same lookup as RotateEpochs: the two paths must agree)
+//@ func (epc *EpochsContext) LoadSyncCommittees(state) err
+//@   property C08
+//@   panics off
+//@   requires epc != nil && state != nil
+//@   assigns epc.CurrentSyncCommittee, epc.NextSyncCommittee
+//@   ensures loaded: err == nil ==> epc.CurrentSyncCommittee != nil && sc_src(epc.CurrentSyncCommittee) == st_cursync(state) && epc.NextSyncCommittee != nil && sc_src(epc.NextSyncCommittee) == st_nextsync(state)
+//@ func NewEpochsContext(spec, state) (epc, err)
+//@   property C08
+//@   panics off
+//@   opt weakcalls
+//@   requires state != nil
+//@   assigns anything, ghost(n_viter), ghost(viter_pos), ghost(viter_reg)
+//@   ensures c08_sync_direct: err == nil && !dynimpl(state, WrappedBeaconState) && dynimpl(state, SyncCommitteeBeaconState) ==> epc != nil && epc.CurrentSyncCommittee != nil && sc_src(epc.CurrentSyncCommittee) == st_cursync(state) && epc.NextSyncCommittee != nil && sc_src(epc.NextSyncCommittee) == st_nextsync(state)
+//@   ensures c08_sync_wrapped: err == nil && isptrto(state, beacon.StandardUpgradeableBeaconState) && dynimpl(old(unboxptr(state, beacon.StandardUpgradeableBeaconState).BeaconState), SyncCommitteeBeaconState) ==> epc != nil && epc.CurrentSyncCommittee != nil && sc_src(epc.CurrentSyncCommittee) == st_cursync(old(unboxptr(state, beacon.StandardUpgradeableBeaconState).BeaconState)) && epc.NextSyncCommittee != nil && sc_src(epc.NextSyncCommittee) == st_nextsync(old(unboxptr(state, beacon.StandardUpgradeableBeaconState).BeaconState))
+//@   ensures c08_no_sync: err == nil && !dynimpl(state, WrappedBeaconState) && !dynimpl(state, SyncCommitteeBeaconState) ==> epc != nil && epc.CurrentSyncCommittee == nil && epc.NextSyncCommittee == nil
 //@ func (epc *EpochsContext) RotateEpochs(state) err
 //@   property C08
 //@   panics off
